@@ -89,8 +89,20 @@ Definition kind_of (t : list byte) : kind :=
          else KId
   end.
 
-(** enabled map: membership of the token among the keys *)
+(** enabled map: membership of a name among the keys *)
 Definition env := list byte -> bool.
+
+(** tok[strings.LastIndexByte(tok, ':')+1:] - the name without its prefix *)
+Fixpoint local_name (t : list byte) : list byte :=
+  match t with
+  | [] => []
+  | b :: tl =>
+      if existsb (fun c => beq c x3a) tl then local_name tl
+      else if beq b x3a then tl else t
+  end.
+
+(** features[local name of tok] *)
+Definition lookup (e : env) : env := fun tok => e (local_name tok).
 
 Section Loops.
   (** parseNot of the enclosing recursion level *)
@@ -157,7 +169,7 @@ Fixpoint parse_not (n : nat) (e : env) (s : st) : option (bool * st) :=
               Some (b, if bytes_eqb (peek s2) rp then advance s2 else fail (advance s2))
           | None => None
           end
-      | KId => Some (e tok, s1)
+      | KId => Some (lookup e tok, s1)
       | KEnd | KRp | KAnd | KOr => Some (false, fail s1)
       end
   end.
